@@ -132,6 +132,7 @@ type Sched struct {
 	changeAt map[int]bool
 
 	onces  []*onceState
+	pools  []*poolState
 	groups []*Group
 
 	// event log
@@ -1062,6 +1063,84 @@ func (s *Sched) onceDone(o *sync.Once, st *onceState) {
 			g.state = stParked
 			g.blockOn = nil
 		}
+	}
+	s.unlock()
+}
+
+// ---- sync.Pool ------------------------------------------------------------
+
+type poolState struct {
+	p     *sync.Pool
+	items []any
+}
+
+// PoolGet replaces (*sync.Pool).Get in instrumented code: the most recently
+// Put object, else New(). Deterministic, and the most reuse a real pool could
+// ever show.
+//
+//go:norace
+func PoolGet(p *sync.Pool) any {
+	s := curSched()
+	if s == nil || s.self() == nil {
+		return p.Get()
+	}
+	var x any
+	got := false
+	s.lock()
+	for _, ps := range s.pools {
+		if ps.p == p && len(ps.items) > 0 {
+			x = ps.items[len(ps.items)-1]
+			ps.items = ps.items[:len(ps.items)-1]
+			got = true
+		}
+	}
+	s.unlock()
+	if got {
+		s.count("pool_object_reused")
+		raceAcquire(unsafe.Pointer(p)) // as the real pool: Put happens before the Get that returns the object
+		return x
+	}
+	if p.New != nil {
+		return p.New()
+	}
+	return nil
+}
+
+// PoolPut replaces (*sync.Pool).Put.
+//
+//go:norace
+func PoolPut(p *sync.Pool, x any) {
+	s := curSched()
+	if s == nil || s.self() == nil {
+		p.Put(x)
+		return
+	}
+	if x == nil {
+		return
+	}
+	raceReleaseMerge(unsafe.Pointer(p))
+	s.lock()
+	var st *poolState
+	for _, ps := range s.pools {
+		if ps.p == p {
+			st = ps
+		}
+	}
+	if st == nil {
+		st = &poolState{p: p, items: make([]any, 0, 64)}
+		if len(s.pools) == cap(s.pools) {
+			np := make([]*poolState, len(s.pools), 2*cap(s.pools)+8)
+			for i := range s.pools {
+				np[i] = s.pools[i]
+			}
+			s.pools = np
+		}
+		s.pools = s.pools[:len(s.pools)+1]
+		s.pools[len(s.pools)-1] = st
+	}
+	if len(st.items) < cap(st.items) {
+		st.items = st.items[:len(st.items)+1]
+		st.items[len(st.items)-1] = x
 	}
 	s.unlock()
 }
